@@ -2,7 +2,6 @@
 // three kinds of clients (OSS operator, one editor per source, the environment) interleaved by the scheduler, with
 // source-manager faults, delayed / duplicated / lost announcements and crash / restart of the whole world.
 #include "schemakit.hpp"
-extern "C" void __sanitizer_print_stack_trace(void);
 
 #include "ccl/oss/OSSchema.h"
 #include "ccl/env/cclEnvironment.h"
@@ -47,7 +46,7 @@ struct SimSourceManager final : SourceManager {
   bool crashing{ false };   // the process is "dying": nothing is saved or announced any more
   int localCounter{ 0 };
   uint64_t tick{ 0 };   // simulator event counter (one per executed op)
-  void Announce(SimSource& s) { if (getenv("OSSDBG")) { fprintf(stderr, "ANNOUNCE tick=%lu src=%s\n", (unsigned long)tick, (const char*)s.fullName.c_str()); __sanitizer_print_stack_trace(); } s.announcedHash = s.CoreHash(); s.announcedAt = tick; OnSourceChange(s); }
+  void Announce(SimSource& s) { s.announcedHash = s.CoreHash(); s.announcedAt = tick; OnSourceChange(s); }
   std::map<std::string, uint64_t>* faultCounter{ nullptr };
   void Fired(const char* k) { if (faultCounter) (*faultCounter)[k]++; }
 
